@@ -228,7 +228,41 @@ func (a *Analyzer) callMustWrites(st *fnState, ci ssa.CallInstruction, fresh boo
 	}
 	f := c.StaticCallee()
 	if f == nil {
-		return nil
+		// a function value selected among a few known functions (`mult := f; if fast { mult = g }; mult(…)`):
+		// what every candidate writes
+		cands := funcCandidates(c.Value, 0)
+		if len(cands) == 0 {
+			return nil
+		}
+		var common map[Path]bool
+		for _, g := range cands {
+			if !analysable(g) {
+				return nil
+			}
+			cur := map[Path]bool{}
+			for w := range a.MustWrites(g) {
+				var i int
+				fmt.Sscanf(w.Root(), "P%d", &i)
+				if i < len(args) {
+					if base, ok := definite(args[i]); ok {
+						cur[w.Rebase(base)] = true
+					}
+				}
+			}
+			if common == nil {
+				common = cur
+			} else {
+				for p := range common {
+					if !cur[p] {
+						delete(common, p)
+					}
+				}
+			}
+		}
+		for p := range common {
+			out = append(out, p)
+		}
+		return out
 	}
 	if analysable(f) {
 		for w := range a.MustWrites(f) {
@@ -282,4 +316,28 @@ func definiteParamPath(ps PathSet) (Path, bool) {
 		}
 	}
 	return found, n == 1
+}
+
+// funcCandidates: the functions a called value may be, when it is a merge of function constants.
+func funcCandidates(v ssa.Value, depth int) []*ssa.Function {
+	if depth > 3 {
+		return nil
+	}
+	switch x := v.(type) {
+	case *ssa.Function:
+		return []*ssa.Function{x}
+	case *ssa.Phi:
+		var out []*ssa.Function
+		for _, e := range x.Edges {
+			c := funcCandidates(e, depth+1)
+			if len(c) == 0 {
+				return nil
+			}
+			out = append(out, c...)
+		}
+		return out
+	case *ssa.ChangeType:
+		return funcCandidates(x.X, depth+1)
+	}
+	return nil
 }
